@@ -456,6 +456,34 @@ theorem bm20With_spec (cost : Tableau → Nat) (n : Nat)
         · exact (hLok g hg).1
         · exact invert_ok n _ (fun g h => (e3 g h).1) g hg
 
+/-- whatever BM20 returns is written in the invertible alphabet. -/
+theorem bm20With_isAG (cost : Tableau → Nat) (n : Nat) (T : Tableau) (gs : List Gate)
+    (h : bm20With cost n T = some gs) : ∀ g ∈ gs, g.isAG = true := by
+  unfold bm20With at h
+  split at h
+  · cases h
+  · split at h
+    · simp only [Option.some.injEq] at h
+      subst h
+      intro g hg
+      exact onQubit_isAG (mem_singleQubitQ 0 _ _ _ _ _ _ g hg)
+    · cases hl : bmLoop cost n (cost T) T [] with
+      | none => rw [hl] at h; cases h
+      | some p =>
+        obtain ⟨F, inv⟩ := p
+        rw [hl] at h
+        simp only [Option.some.injEq] at h
+        subst h
+        obtain ⟨gs', e1, _, e3, _⟩ := bmLoop_spec cost n (cost T) T [] F inv rfl hl
+        rw [List.nil_append] at e1
+        subst e1
+        intro g hg
+        rcases List.mem_append.1 hg with hg | hg
+        · simp only [bmLocalPart, List.mem_flatMap, List.mem_range] at hg
+          obtain ⟨q, _, hgq⟩ := hg
+          exact onQubit_isAG (mem_singleQubitQ q _ _ _ _ _ _ g hgq)
+        · exact invert_isAG _ (fun g h => (e3 g h).2) g hg
+
 theorem cnotCost_zero_local (n : Nat) (hn : n = 2 ∨ n = 3) (F : Tableau) (hv : Valid n F)
     (h : cnotCost n F = 0) : Local n F := by
   rcases hn with rfl | rfl
